@@ -52,6 +52,11 @@ func c01Forms() []c01Form {
 			// whether a blob should be is left open, the form is not used here)
 			return find(db.Table("t").Where("a = ? AND c = ?", b, b)), []interface{}{b, b}
 		}},
+		{"bytes-in-equality", func(db *gorm.DB, x, y, z int) (*gorm.Statement, []interface{}) {
+			// a blob compared for (in)equality through the column form is one bound value
+			b1, b2 := []byte{byte(x), byte(y)}, []byte{byte(z)}
+			return find(db.Table("t").Where("a", b1).Not("b", b2).Where(clause.Neq{Column: "c", Value: b1})), []interface{}{b1, b2, b1}
+		}},
 		{"pointer-and-null", func(db *gorm.DB, x, y, z int) (*gorm.Statement, []interface{}) {
 			n := sql.NullInt64{Int64: int64(y), Valid: true}
 			return find(db.Table("t").Where("a = ? AND b = ? AND c = ?", &x, n, nil)), []interface{}{&x, n, nil}
